@@ -43,6 +43,7 @@ type RunRecord struct {
 	Events     int                `json:"events"`
 	Signature  string             `json:"sig"`
 	RawHash    string             `json:"raw"`
+	CanonHash  string             `json:"canon"`
 	Faults     map[string]int     `json:"faults,omitempty"`
 	Probes     map[string]int     `json:"probes,omitempty"`
 	Nontrivial bool               `json:"nontrivial"`
@@ -103,13 +104,17 @@ func TestWorker(t *testing.T) {
 			nf += n
 		}
 		rec := RunRecord{Run: p.Run, Family: p.Family, Violations: mine, Harness: res.Harness, Steps: res.Steps, SimNs: res.SimNs,
-			Events: len(res.Events), Signature: res.Signature, RawHash: res.RawHash, Faults: res.Faults, Probes: res.Probes,
+			Events: len(res.Events), Signature: res.Signature, RawHash: res.RawHash, CanonHash: res.CanonHash, Faults: res.Faults, Probes: res.Probes,
 			Nontrivial: len(p.Scen.Clients) >= 2 || nf >= 1 || res.Steps >= 8, WallUs: time.Since(t0).Microseconds()}
 		if sample {
 			rec.Sample, _ = json.Marshal(summarize(p))
 		}
 		if job.DumpHist {
 			for _, e := range res.Events {
+				if os.Getenv("TQSIM_FULL") != "" {
+					fmt.Fprintf(os.Stderr, "%5d s%-4d t=%-12d %-9s %-18s c%d a=%d b=%d %q %x\n", e.Seq, e.Step, e.T, e.Actor, e.Kind, e.Conn, e.A, e.B, e.S, e.Bytes)
+					continue
+				}
 				fmt.Fprintf(os.Stderr, "%5d s%-4d t=%-12d %-9s %-18s c%d a=%d b=%d %.120s %.40x\n", e.Seq, e.Step, e.T, e.Actor, e.Kind, e.Conn, e.A, e.B, e.S, e.Bytes)
 			}
 			for _, v := range vs {
